@@ -89,6 +89,15 @@ def applyOp (env : Env) (t : Tmpl) (rows : List RowV) (ts : List String) : StepR
        | some r => lift (importAtKeyWith (importVal env) r k x) fun r' e => .ok (rows.set i r') e (some i)
        | none => .bad "bad row index"
      | _, _, _ => .bad "bad iak")
+  | ["irow", i, j] =>
+    -- Row.Import handed another row
+    (match i.toNat?.bind (fun i => rows[i]?.map fun r => (i, r)), j.toNat?.bind (fun j => rows[j]?) with
+     | some (i, r), some r2 =>
+       (match importVal env (.row (Members.ofList r)) (.val (.row (Members.ofList r2))) with
+        | .ok (.row ms, e) => .ok (rows.set i ms.toList) e (some i)
+        | .err .ext => .abstain
+        | _ => .bad "irow: not a row")
+     | _, _ => .bad "bad irow")
   | "iap" :: i :: k :: rest =>
     -- ImportAtPath: a nested in-place mutation through one consumer of the template
     (match i.toNat?, parseKey k, Dyn.parse? (" ".intercalate rest) with
